@@ -808,5 +808,20 @@ func mechanisms(c *hx.Ctx, k interface{}, pg Page) {
 		opElementTree(c, frs, w, h)
 		opAssemble(c, frs, w)
 		opByColumn(c, frs, w, h)
+		opLineOrder(c, frs)
+		opReadingOrder(c, frs, w, h)
+		if len(layout.VerifFindVerticalGaps(cp(frs), w, h)) > 0 {
+			// the same page read right to left: the direction branch of orderSections on
+			// several columns (the direction of a fragment is a field, not derived from its text)
+			rt := cp(frs)
+			for i := range rt {
+				rt[i].Direction = text.RTL
+			}
+			c.Count("reading-order:columns-read-right-to-left")
+			opReadingOrder(c, rt, w, h)
+		}
+		opRenderings(c, frs, w, h)
+		opTextGetText(c, k, frs)
+		opAnalyze(c, frs, w, h)
 	})
 }
